@@ -282,13 +282,22 @@ Variable cfg : py_config.
 Notation c := (c05_py_cfg cfg).
 Notation erase := (c05_erase Python (c05_py_cfg cfg)).
 
+(* write_type_alias declares the alias's generic parameters as TypeVars (python.rs:280): never fails *)
+Lemma py_add_type_vars_sat names : runs_sat (py_add_type_vars names) (fun _ => True).
+Proof.
+  induction names as [|n r IH]; cbn [py_add_type_vars]; [apply sat_ret; exact I|].
+  eapply sat_bind with (P := fun _ => True); [|intros _ _; exact IH].
+  intros st. unfold py_add_type_var, py_add_import, mbind, mget, mput. eauto.
+Qed.
+
 Theorem C05_site_py_alias a :
   dom_C05 (atype a) = true -> known_C05 Python c (agenerics a) (atype a) = None ->
   runs_sat (py_decl_of uc cfg (ItAlias a))
            (fun ds => exists docs name, ds = [PYAlias docs name (agenerics a) (erase (agenerics a) (atype a))]).
 Proof.
   intros Hd Hk. cbn [py_decl_of].
-  eapply sat_bind; [apply runs_to_sat, (C05_fmt_py cfg _ _ Hd Hk)|]. intros ty ->. apply sat_ret. eauto.
+  eapply sat_bind; [apply runs_to_sat, (C05_fmt_py cfg _ _ Hd Hk)|]. intros ty ->.
+  eapply sat_bind; [apply py_add_type_vars_sat|]. intros _ _. apply sat_ret. eauto.
 Qed.
 
 Theorem C05_site_py_const k :
